@@ -73,8 +73,8 @@ BackoffViol(e) ==
   {"fail:" \o r.site : x \in IF r.fail # "none" THEN {1} ELSE {}}              \* producing the sequence never panics
   \cup IF r.fail # "none" THEN {}
   ELSE (IF Len(s) # c.n \/ Somes(s) # 1..m THEN {"wrong-number-of-delays"} ELSE {})   \* exactly its retry limit of delays
-       \cup (IF 1 \in Somes(s) /\ s[1].d # c.cur THEN {"first-delay-not-initial"} ELSE {})
-       \cup (IF \E j \in 1..(Len(s) - 1) : {j, j + 1} \subseteq Somes(s) /\ s[j + 1].d # DMin(c.max, DDbl(s[j].d))
+       \cup (IF Len(s) >= 1 /\ s[1].k = "some" /\ s[1].d # c.cur THEN {"first-delay-not-initial"} ELSE {})
+       \cup (IF \E j \in 1..(Len(s) - 1) : s[j].k = "some" /\ s[j + 1].k = "some" /\ s[j + 1].d # DMin(c.max, DDbl(s[j].d))
              THEN {"delay-not-double-capped-at-maximum"} ELSE {})
 
 -----------------------------------------------------------------------------
